@@ -13,12 +13,17 @@
     (counter 0, unreserved) rejects every steal/reserve of a positive number of frames and every
     sync, for every policy: no allocation path through the tree array can take frames from it.
 
-  PARTIAL: "no allocation of any kind returns a frame of the tree until it is online again, for
-  every history" additionally needs the upper invariant (a tree is reached only through its
-  array entry or a slot naming it, and an offline tree is unreserved); in progress. Carried by
-  the change-heavy correspondence histories with the offline oracle.
+  * `change_tree_spec` — the whole call (by id and by search) in every reachable state: no
+    panic, a refused change changes nothing, a successful one touches one unreserved matching
+    tree, keeps allocation state and invariant, `Online` restores the counter to exactly the
+    free frames of the tree; `offline_no_slot` — no local reservation names an unreserved tree.
+
+  PARTIAL: the composed statement "no allocation of any kind returns a frame of an offline tree
+  until it is online again, for every history" (every allocation path first takes the frames
+  from the tree's entry or from a slot naming it) is not stated as one theorem; carried by the
+  change-heavy correspondence histories with the offline oracle.
 -/
-import LLFreeV.Model.Upper
+import LLFreeV.Proofs.UpperInit
 namespace LLFree.C15
 open LLFree
 
@@ -96,5 +101,30 @@ theorem offline_blocks_reserve (tf : Nat) (t : Tree) (cls n : Nat) (policy : Pol
     unreserved (`change` applies to unreserved entries only) and `sync_steal` requires `reserved` -/
 theorem offline_blocks_sync (t : Tree) (min : Nat) (hr : t.reserved = false) : t.syncSteal min = none := by
   simp [Tree.syncSteal, hr]
+
+
+/-- **`LLFree::change_tree`** (by id or by search), every reachable state: never panics; a
+    refused change changes nothing; a successful change touches exactly one tree entry, keeps
+    the allocation state and the invariant; `Offline` leaves the tree unreserved with counter 0
+    (its frames are hidden: the fast count excludes them, C04.fast_counters_exact); a
+    successful `Online` restores the counter to exactly the free frames of the tree (the tree
+    leaves the hidden set). -/
+theorem change_tree_spec (c : Cfg) (ok : CfgOk c) (H : Nat → Prop) (m : Mem) (inv : UpperInv0 c H m)
+    (mid mcls : Option Nat) (mfree : Nat) (ccls : Option Nat) (op : Option Tree.Op) (hccls : ∀ k, ccls = some k → k < 8) :
+    Runs m (changeTree c mid mcls mfree ccls op) (fun res m' =>
+      (res ≠ .ok () → m = m') ∧ ∃ H' i, ChangePost c H H' m m' i op res ∧ (∀ j, mid = some j → i = j)) :=
+  changeTree_spec ok inv mid mcls mfree ccls op hccls
+
+/-- an offline tree (unreserved, counter 0) is not usable for any allocation path through the
+    tree array: `steal`, `reserve_or_steal` and `sync` refuse it (above), and no slot names it
+    (`UpperInv.slotTree`: slots name reserved trees only). -/
+theorem offline_no_slot (c : Cfg) (H : Nat → Prop) (m : Mem) (inv : UpperInv0 c H m) (i : Nat) (t : Tree)
+    (ht : m.trees[i]? = some t) (hr : t.reserved = false) (s : Nat) (l : LTree) (hl : m.slots[s]? = some l)
+    (hp : l.present = true) : l.row / c.geom.treeRows ≠ i := by
+  intro e
+  obtain ⟨k, hk⟩ := inv.slotCls s l hl hp
+  obtain ⟨t', ht', hr', _⟩ := inv.slotTree s l k hl hp hk
+  rw [e, ht] at ht'; cases ht'
+  rw [hr] at hr'; cases hr'
 
 end LLFree.C15
